@@ -11,6 +11,8 @@ package explore
 import (
 	"fmt"
 	"hash/fnv"
+	"os"
+	"strconv"
 	"sort"
 	"sync"
 	"sync/atomic"
@@ -207,9 +209,15 @@ func RunOne(body Body, choices []int) (*Ctx, *Verdict) {
 	return c, v
 }
 
+var slowMS = func() int64 { n, _ := strconv.Atoi(os.Getenv("VERIF_SLOW_MS")); return int64(n) }()
+
 func (e *explorer) explore(prefix []int, costSoFar int) {
 	c := &Ctx{prefix: prefix}
+	t0 := time.Now()
 	v := e.body(c)
+	if slowMS > 0 && time.Since(t0).Milliseconds() > slowMS {
+		fmt.Fprintf(os.Stderr, "SLOW %dms choices=%v\n", time.Since(t0).Milliseconds(), c.Choices())
+	}
 	if len(c.Points) < len(prefix) {
 		panic(HarnessError{fmt.Sprintf("replay diverged: execution used %d of %d recorded choices", len(c.Points), len(prefix))})
 	}
